@@ -576,3 +576,11 @@ add("W3", "break", NB, "_rolling_sum_or_mean_1d", "                if not is_nul
 add("W3", "break", NB, "_rolling_sum_or_mean_1d", "            if not val_is_null:\n                group_non_null[key] += 1\n                group_sums[key] += val\n", "            group_non_null[key] += 1\n            if not val_is_null:\n                group_sums[key] += val\n", name="W3 null values counted as non-null")
 add("W3", "break", NB, "_rolling_max_or_min_1d", "                if not is_null(to_remove):\n                    group_non_null[key] -= 1\n", "                group_non_null[key] -= 1\n", name="W3 evicted nulls decrement the non-null count")
 add("W3", "break", NB, "_rolling_sum_or_mean_1d", "                    group_sums[key] -= old_val\n", "", name="W3 evicted value never leaves the running sum")
+
+# --------------------------------------------------------------------------------------------- D7b
+add("D7b", "break", CORE, "GroupBy.var", "return (sq_sum - sum_sq / count) / (count - ddof)", "return (sq_sum - sum_sq / count) / (count + ddof)", name="D7b ddof added instead of subtracted")
+add("D7b", "break", CORE, "GroupBy.var", "return (sq_sum - sum_sq / count) / (count - ddof)", "return (sq_sum / count - sum_sq / count) / (count - ddof)", name="D7b numerator divided twice")
+add("D7b", "break", CORE, "GroupBy.var", "return (sq_sum - sum_sq / count) / (count - ddof)", "return (sq_sum - sum_sq) / count / (count - ddof)", name="D7b mean of squares minus square of sum")
+add("D7b", "break", CORE, "GroupBy.std", "GroupBy.var(**locals()) ** 0.5", "GroupBy.var(**locals()) ** 2", name="D7b std squares the variance")
+add("D7b", "keep", CORE, "GroupBy.var", "return (sq_sum - sum_sq / count) / (count - ddof)", "numerator = sq_sum - sum_sq / count\n        return np.maximum(numerator, 0.0) / (count - ddof)", name="D7b numerator in a local, clamped with np.maximum")
+add("D7b", "keep", CORE, "GroupBy.var", "return (sq_sum - sum_sq / count) / (count - ddof)", "return (-(sum_sq / count) + sq_sum) / (-ddof + count)", name="D7b terms commuted")
